@@ -237,7 +237,7 @@ impl Property for C08 {
             }
         }
         if tier == Tier::Thorough {
-            let runs = std::env::var("XSGV_FUZZ_RUNS").ok().and_then(|s| s.parse().ok()).unwrap_or(1_000_000u64);
+            let runs = std::env::var("XSGV_FUZZ_RUNS").ok().and_then(|s| s.parse().ok()).unwrap_or(120_000u64);
             let c = crate::fuzzrun::Campaign { target: "fz_bytes", runs_per_worker: runs, workers: 16, seed: seed ^ 0xc08, max_len: 4096, seeds: crate::props::c07::fuzz_seeds(seed ^ 0xc08) };
             crate::fuzzrun::campaign_for("C08", &c, st)?;
         }
